@@ -160,6 +160,46 @@ func probeWalk(p *Program, f *ssa.Function, blk *ssa.BasicBlock, start int, vals
 		}
 	}
 	isTok := func(v ssa.Value) bool { return derived[v] }
+	// the result of comparing the token with a constant, kept in a boolean
+	// (possibly a loop variable): branching on it is the match test
+	cmpOp := map[ssa.Value]token.Token{}
+	for _, b := range f.Blocks {
+		for _, in := range b.Instrs {
+			if bo, ok := in.(*ssa.BinOp); ok && (bo.Op == token.EQL || bo.Op == token.NEQ) && (isTok(bo.X) != isTok(bo.Y)) {
+				cmpOp[bo] = bo.Op
+			}
+		}
+	}
+	for changed := true; changed; {
+		changed = false
+		for _, b := range f.Blocks {
+			for _, in := range b.Instrs {
+				phi, ok := in.(*ssa.Phi)
+				if !ok {
+					continue
+				}
+				if _, has := cmpOp[phi]; has {
+					continue
+				}
+				var op token.Token
+				okAll := true
+				for _, e := range phi.Edges {
+					if o, has := cmpOp[e]; has {
+						if op != 0 && op != o {
+							okAll = false
+						}
+						op = o
+					} else if _, isC := e.(*ssa.Const); !isC && e != ssa.Value(phi) {
+						okAll = false
+					}
+				}
+				if okAll && op != 0 {
+					cmpOp[phi] = op
+					changed = true
+				}
+			}
+		}
+	}
 	for len(work) > 0 {
 		it := work[len(work)-1]
 		work = work[:len(work)-1]
@@ -253,6 +293,17 @@ func probeWalk(p *Program, f *ssa.Function, blk *ssa.BasicBlock, start int, vals
 							matched, other = other, matched
 						}
 						_ = matched // matched against a constant: accounted on that edge
+						work = append(work, item{other, 0})
+						accounted = true
+						break instrs
+					}
+				}
+				if op, ok := cmpOp[x.Cond]; ok {
+					if _, direct := x.Cond.(*ssa.BinOp); !direct {
+						other := it.b.Succs[1]
+						if op == token.NEQ {
+							other = it.b.Succs[0]
+						}
 						work = append(work, item{other, 0})
 						accounted = true
 						break instrs
